@@ -102,7 +102,16 @@ func (p *Printer) printTransaction(t *model.Transaction) (n int, err error) {
 }
 
 func (p *Printer) printPosting(t *model.Posting) (int, error) {
-	return fmt.Fprintf(p, "%-*s %-*s %10s %s", p.padding, t.Other.String(), p.padding, t.Account.String(), t.Quantity.String(), t.Commodity.Name())
+	return fmt.Fprintf(p, "%s %s %10s %s", pad(t.Other.String(), p.padding), pad(t.Account.String(), p.padding), t.Quantity.String(), t.Commodity.Name())
+}
+
+// pad pads s with blanks on the right to the given width in characters
+// (the width argument of fmt's %-*s is limited to 10^6).
+func pad(s string, width int) string {
+	if n := utf8.RuneCountInString(s); n < width {
+		return s + strings.Repeat(" ", width-n)
+	}
+	return s
 }
 
 func (p *Printer) printOpen(o *model.Open) (int, error) {
